@@ -53,7 +53,7 @@ func VerifC12_Store() {
 	}
 	defer d.Close()
 	n := zzverif.Len("nvaa", 0, 1, 2, 3)
-	const maxSeq = 3
+	maxSeq := uint64(zzverif.Len("maxseq", 3, 12)) // 12: one- and two-digit sequences (decimal keys do not sort numerically)
 	vs := make([]*vaa.VAA, n)
 	enc := make([][]byte, n)
 	for i := range vs {
